@@ -1,6 +1,8 @@
 import ElfioVerif.Props.C07
 import ElfioVerif.Model.Symbols
+import ElfioVerif.Lemmas.SymTie
 import ElfioVerif.Spec.Symbols
+import ElfioVerif.Lemmas.SymbolsTie
 namespace ElfioVerif
 open Gen
 
@@ -248,6 +250,11 @@ theorem fld_eq (e : Enc) (rec : Bytes) (off w : Nat) (hw : w = 1 ∨ w = 2 ∨ w
   apply rdField_eq
   rw [slice_length_of_le h]; exact hw
 
+theorem decodeInt_slice_lt (e : Enc) (x : Bytes) (o w : Nat) : decodeInt e (slice x o w) < 2 ^ (8 * w) := by
+  have h1 := decodeInt_lt e (slice x o w)
+  have hl : (slice x o w).length ≤ w := by simp [slice]; omega
+  exact Nat.lt_of_lt_of_le h1 (Nat.pow_le_pow_right (by decide) (by omega))
+
 def rawOf (r : Spec.SymRec) : RawSym :=
   { name := BitVec.ofNat 32 r.name, value := BitVec.ofNat 64 r.value, size := BitVec.ofNat 64 r.size,
     info := BitVec.ofNat 8 r.info, other := BitVec.ofNat 8 r.other, shndx := BitVec.ofNat 16 r.shndx }
@@ -262,16 +269,16 @@ theorem decodeRaw_eq (c : Cfg) (rec : Bytes) (h : rec.length = Spec.symSize c.cl
       Elf32_Sym.st_other_off, Elf32_Sym.st_other_w, Elf32_Sym.st_shndx_off, Elf32_Sym.st_shndx_w]
     rw [fld_eq _ _ 0 4 (by simp) (by omega), fld_eq _ _ 4 4 (by simp) (by omega), fld_eq _ _ 8 4 (by simp) (by omega),
       fld_eq _ _ 12 1 (by simp) (by omega), fld_eq _ _ 13 1 (by simp) (by omega), fld_eq _ _ 14 2 (by simp) (by omega)]
+    have h4 : ∀ o, decodeInt c.enc (slice rec o 4) < 4294967296 := fun o => by
+      simpa using decodeInt_slice_lt c.enc rec o 4
+    simp only [SymTie.get_name_idx32, SymTie.get_other32, SymTie.get_shndx32, SymTie.get_value32 (h4 _),
+      SymTie.get_size32 (h4 _)]
   · simp only [Elf64_Sym.st_name_off, Elf64_Sym.st_name_w, Elf64_Sym.st_value_off, Elf64_Sym.st_value_w,
       Elf64_Sym.st_size_off, Elf64_Sym.st_size_w, Elf64_Sym.st_info_off, Elf64_Sym.st_info_w,
       Elf64_Sym.st_other_off, Elf64_Sym.st_other_w, Elf64_Sym.st_shndx_off, Elf64_Sym.st_shndx_w]
     rw [fld_eq _ _ 0 4 (by simp) (by omega), fld_eq _ _ 8 8 (by simp) (by omega), fld_eq _ _ 16 8 (by simp) (by omega),
       fld_eq _ _ 4 1 (by simp) (by omega), fld_eq _ _ 5 1 (by simp) (by omega), fld_eq _ _ 6 2 (by simp) (by omega)]
-
-theorem decodeInt_slice_lt (e : Enc) (x : Bytes) (o w : Nat) : decodeInt e (slice x o w) < 2 ^ (8 * w) := by
-  have h1 := decodeInt_lt e (slice x o w)
-  have hl : (slice x o w).length ≤ w := by simp [slice]; omega
-  exact Nat.lt_of_lt_of_le h1 (Nat.pow_le_pow_right (by decide) (by omega))
+    simp only [SymTie.get_name_idx64, SymTie.get_other64, SymTie.get_shndx64, SymTie.get_value64, SymTie.get_size64]
 
 theorem recAt_name_lt (cfg : Cfg) (symB : Bytes) (i : Nat) : (recAt cfg symB i).name < 4294967296 := by
   unfold recAt Spec.decodeSym
@@ -283,7 +290,7 @@ theorem symbolsNum_eq {t : SymTab} {symB strB : Bytes} (h : Wf t symB strB) :
   have hsz := h.sym.size
   have hst := h.stream
   have hlt := t.sym.size.isLt
-  unfold symbolsNum countOf
+  rw [symbolsNum_hand]; unfold countOf
   rw [h.ent]
   cases hc : t.cfg.cls <;>
     simp only [symSizeOf, sym_num_cond, sym_num_min32, sym_num_min64, sym_num_div, sizeof_Elf32_Sym,
@@ -307,7 +314,7 @@ theorem symbolsNum_eq {t : SymTab} {symB strB : Bytes} (h : Wf t symB strB) :
 
 
 theorem attrsOf_eq (t : SymTab) (r : Spec.SymRec) : t.attrsOf (rawOf r) = attrsOfRec r := by
-  unfold attrsOf attrsOfRec rawOf
+  unfold attrsOf attrsOfT attrsOfRec rawOf
   simp only [st_bind_gen32, st_bind_gen64, st_type_gen32, st_type_gen64, ite_self]
 
 theorem getString_wf {t : SymTab} {symB strB : Bytes} (h : Wf t symB strB) (idx : BitVec 32) :
@@ -332,7 +339,9 @@ theorem getSymbol_decoded {t : SymTab} {symB strB : Bytes} (h : Wf t symB strB) 
   have hlt := t.sym.size.isLt
   have hi := i.isLt
   have hcnt : countOf t.cfg.cls symB ≤ symB.length := Nat.div_le_self _ _
-  unfold getSymbol guardNum
+  rw [SymTie.getSymbol_unfold]
+  unfold guardNum
+  simp only [SymTie.get_name_sel]
   by_cases hn : (secData t.sym).isNone = true
   · have he := h.sym.isNone hn
     have h0 : countOf t.cfg.cls symB = 0 := by subst he; simp [countOf]
@@ -434,7 +443,7 @@ theorem insertFinish_frame (b : SecBuf) (ns n : BitVec 64) :
     (b.insertFinish ns n).entSize = b.entSize ∧ (b.insertFinish ns n).link = b.link ∧
     (b.insertFinish ns n).translatorEmpty = b.translatorEmpty ∧
     (b.insertFinish ns n).streamSize = (if b.translatorEmpty then b.streamSize + n else b.streamSize) := by
-  unfold SecBuf.insertFinish SecBuf.setSize
+  rw [SecBuf.insertFinish_hand]; unfold SecBuf.setSize
   cases b.cls <;> simp only <;> split <;> simp_all
 
 /-- `insert_data` either leaves the header alone or finishes with `set_size` + stream-size update -/
@@ -663,6 +672,12 @@ theorem add_ret_eq (cls : Cls) (sz : BitVec 64) (k : Nat) (hk : sz.toNat = (k + 
     clear h1
     omega
 
+/-- the `T` chosen by the class test of the file's own class is the file's class -/
+theorem cfg_of_c32 (t : SymTab) : (⟨if t.c32 = true then Cls.c32 else Cls.c64, t.cfg.enc⟩ : Cfg) = t.cfg := by
+  unfold c32
+  cases hc : t.cfg with
+  | mk cls enc => cases cls <;> rfl
+
 theorem genericAdd_step {t : SymTab} {symB : Bytes} (hg : Grown t.sym symB) (hcls : t.sym.cls = t.cfg.cls)
     (k : Nat) (hk : symB.length = k * Spec.symSize t.cfg.cls) (hfit : symB.length + 24 < 4294967296)
     (name : BitVec 32) (value size : BitVec 64) (info other : BitVec 8) (shndx : BitVec 16) :
@@ -685,7 +700,8 @@ theorem genericAdd_step {t : SymTab} {symB : Bytes} (hg : Grown t.sym symB) (hcl
     · rw [g.size]; simp only [List.length_append, hel, hk, Nat.add_mul]; omega
     · rw [g.size]; simp only [List.length_append, hel]; omega
   refine ⟨s', ?_, g, c, en⟩
-  simp only [genericAddSymbol, entryBytes_eq, hlen, hrd, bind, Except.bind, e, pure, Except.pure, hret]
+  simp only [genericAddSymbol, genericAddSymbolT, cfg_of_c32, entryBytes_eq, hlen, hrd, bind, Except.bind, e, pure,
+    Except.pure, hret]
 
 
 /-- symbol section contents for the records `recs` (after the null symbol); empty before any add -/
@@ -715,6 +731,7 @@ theorem addSymbol_step {t : SymTab} {recs : List Spec.SymRec} (hg : Grown t.sym 
   have hsz : Spec.symSize t.cfg.cls ≤ 24 ∧ 0 < Spec.symSize t.cfg.cls := by cases t.cfg.cls <;> simp [Spec.symSize]
   have hsize := hg.size
   unfold addSymbol
+  simp only [SymTie.add_seed_is32, SymTie.add_is32, SymTie.genericAddSymbolT_c32]
   by_cases hr : recs = []
   · subst hr
     simp only [tableBytes, if_true, List.length_nil] at hg hsize
@@ -812,7 +829,8 @@ theorem symPtrValue_eq {t : SymTab} {symB strB : Bytes} (h : Wf t symB strB) (i 
   have hlt := t.sym.size.isLt
   have hi := i.isLt
   have hcnt : countOf t.cfg.cls symB ≤ symB.length := Nat.div_le_self _ _
-  unfold symPtrValue guardNum
+  rw [SymTie.symPtrValue_unfold]
+  unfold guardNum
   by_cases hn : (secData t.sym).isNone = true
   · have he := h.sym.isNone hn
     have h0 : countOf t.cfg.cls symB = 0 := by subst he; simp [countOf]
@@ -989,12 +1007,14 @@ theorem sysvLoop_symAt {t : SymTab} {symB strB : Bytes} (h : Wf t symB strB) (hv
   | zero =>
     intro y str a st hs e
     rw [sysvLoop] at e
+    sym_tie at e
     split at e
     · cases e
     · cases e; exact hs
   | succ k ih =>
     intro y str a st hs e
     rw [sysvLoop] at e
+    sym_tie at e
     split at e
     · obtain ⟨y', _, e1⟩ := bind_ok' e
       obtain ⟨r, er, e2⟩ := bind_ok' e1
@@ -1013,9 +1033,10 @@ theorem hashLookup_sound {t : SymTab} {symB strB : Bytes} (h : Wf t symB strB) (
     (hs : SecBuf) (name : Bytes) (a a' : Attrs) (e : t.hashLookup hs name a = .ok (true, a')) :
     SymAt t.cfg symB strB name a' := by
   unfold hashLookup at e
+  sym_tie at e
   obtain ⟨nbucket, _, e⟩ := bind_ok' e
   obtain ⟨nchain, _, e⟩ := bind_ok' e
-  simp only at e
+  try simp only at e
   split at e
   · cases e
   obtain ⟨y, _, e⟩ := bind_ok' e
@@ -1024,7 +1045,7 @@ theorem hashLookup_sound {t : SymTab} {symB strB : Bytes} (h : Wf t symB strB) (
   split at e
   · cases e
   · rename_i hr
-    have hr' : r.1 = true := by simpa using hr
+    have hr' : r.1 = true := by simpa [SymTie.sysv_head_missing_eq] using hr
     obtain ⟨st, es, e⟩ := bind_ok' e
     have := sysvLoop_symAt h hv _ _ _ _ _ _ _ _ st (p1 hr') es
     simp only [pure, Except.pure, Except.ok.injEq, Prod.mk.injEq, beq_iff_eq] at e
@@ -1039,12 +1060,13 @@ theorem gnuLoop_sound {t : SymTab} {symB strB : Bytes} (h : Wf t symB strB) (hv 
       SymAt t.cfg symB strB name a' := by
   intro fuel
   induction fuel with
-  | zero => intro ci ch sn a a' e; rw [gnuLoop] at e; cases e
+  | zero => intro ci ch sn a a' e; rw [gnuLoop, gnuLoopT] at e; cases e
   | succ k ih =>
     intro ci ch sn a a' e
-    rw [gnuLoop] at e
+    rw [gnuLoop, gnuLoopT] at e
+    sym_tie at e
     obtain ⟨r, er, e⟩ := bind_ok' e
-    simp only at e
+    try simp only at e
     generalize (if t.c32 = true then gnu32_hash_match ch hash else gnu64_hash_match ch hash) = hm at e er
     by_cases hc : (hm && r.1 && (name == r.2.1)) = true
     · rw [if_pos hc] at e
@@ -1065,12 +1087,13 @@ theorem gnuLoop_sound {t : SymTab} {symB strB : Bytes} (h : Wf t symB strB) (hv 
 theorem gnuLookup_sound {t : SymTab} {symB strB : Bytes} (h : Wf t symB strB) (hv : ValidNames t.cfg symB strB)
     (hs : SecBuf) (name : Bytes) (a a' : Attrs) (e : t.gnuLookup hs name a = .ok (true, a')) :
     SymAt t.cfg symB strB name a' := by
-  unfold gnuLookup at e
+  unfold gnuLookup gnuLookupT at e
+  sym_tie at e
   obtain ⟨nbuckets, _, e⟩ := bind_ok' e
   obtain ⟨symoffset, _, e⟩ := bind_ok' e
   obtain ⟨bloomSize, _, e⟩ := bind_ok' e
   obtain ⟨bloomShift, _, e⟩ := bind_ok' e
-  simp only at e
+  try simp only at e
   split at e
   · cases e
   obtain ⟨pass, _, e⟩ := bind_ok' e
@@ -1089,6 +1112,7 @@ theorem hashPhase_sound {t : SymTab} {symB strB : Bytes} (h : Wf t symB strB) (h
     (name : Bytes) (a a' : Attrs) (e : t.hashPhase name a = .ok (true, a')) :
     SymAt t.cfg symB strB name a' := by
   unfold hashPhase at e
+  rw [SymTie.gnuLookupT_dispatch] at e
   split at e
   · simp [pure, Except.pure] at e
   · rename_i hs _
@@ -1128,7 +1152,8 @@ theorem linearGo_spec {t : SymTab} {symB strB : Bytes} (h : Wf t symB strB) (hv 
         (if (n == name) = true then pure (true, attrsOfRec (recAt t.cfg symB i))
          else t.linearGo name k (BitVec.ofNat 64 i + 1) (attrsOfRec (recAt t.cfg symB i))) := by
       rw [linearGo, getSymbol_decoded h, hiN]
-      simp only [hin, if_true, bind, Except.bind, hn, Option.getD_some, Bool.true_and]
+      simp only [SymTie.byname_hit, SymTie.byname_i_incr, hin, if_true, bind, Except.bind, hn, Option.getD_some,
+        Bool.true_and]
     rw [hstep]
     by_cases hm : n = name
     · subst hm
@@ -1251,6 +1276,7 @@ theorem sysvLoop_total {t : SymTab} {symB strB hashB : Bytes} (h : Wf t symB str
   | zero =>
     intro y str a hf
     rw [sysvLoop]
+    sym_tie
     split
     · rename_i hc
       simp only [Bool.and_eq_true, sysv_walk_lt_nchain, BitVec.ult, decide_eq_true_eq, ofNat32_toNat hnc] at hc
@@ -1259,6 +1285,7 @@ theorem sysvLoop_total {t : SymTab} {symB strB hashB : Bytes} (h : Wf t symB str
   | succ k ih =>
     intro y str a hf
     rw [sysvLoop]
+    sym_tie
     split
     · rename_i hc
       simp only [Bool.and_eq_true, sysv_walk_lt_nchain, sysv_walk_not_undef, BitVec.ult, decide_eq_true_eq,
@@ -1298,6 +1325,7 @@ theorem hashLookup_total {t : SymTab} {symB strB hashB : Bytes} (h : Wf t symB s
   have hsm := hw.small
   have hnb1 := hw.nb
   unfold hashLookup
+  sym_tie
   have e0 := rd32_eq hr "hash_lookup/nbucket" t.cfg.enc 0 (by omega)
   have e1 := rd32_eq hr "hash_lookup/nchain" t.cfg.enc 1 (by omega)
   simp only [Nat.mul_zero, Nat.mul_one] at e0 e1
@@ -1408,7 +1436,8 @@ theorem gnuLoop_total {t : SymTab} {symB strB hashB : Bytes} (h : Wf t symB strB
   | zero => intro ci ch sn a h1 _ h3; omega
   | succ k ih =>
     intro ci ch sn a h1 h2 h3
-    rw [gnuLoop]
+    rw [gnuLoop, gnuLoopT]
+    sym_tie
     generalize (if t.c32 = true then gnu32_hash_match ch hash else gnu64_hash_match ch hash) = hm
     have hget : ∃ r, (if hm = true then t.getSymbol (if t.c32 = true then gnu32_sym_index ci symoffset
         else gnu64_sym_index ci symoffset) sn a else pure (false, sn, a)) = .ok r := by
@@ -1467,7 +1496,8 @@ theorem gnuLookup_total {t : SymTab} {symB strB hashB : Bytes} (h : Wf t symB st
   have hso := hw32_lt t.cfg.enc hashB 4
   have hmul : hw32 t.cfg.enc hashB 8 * bloomW t.cfg.cls ≥ hw32 t.cfg.enc hashB 8 := by
     rcases hW with e | e <;> rw [e] <;> omega
-  unfold gnuLookup
+  unfold gnuLookup gnuLookupT
+  sym_tie
   simp only [rd32_at hr _ _ 0 (by omega), rd32_at hr _ _ 4 (by omega), rd32_at hr _ _ 8 (by omega),
     rd32_at hr _ _ 12 (by omega), bind, Except.bind]
   have hbz : ¬ (BitVec.ofNat 32 (hw32 t.cfg.enc hashB 8) = 0) := by
@@ -1607,9 +1637,9 @@ theorem getByName_total {t : SymTab} {symB strB : Bytes} (h : Wf t symB strB) (n
   rw [e1]
   simp only [bind, Except.bind]
   split
-  · exact ⟨_, rfl⟩
   · rw [symbolsNum_eq h]
     exact linearGo_total h name _ _ _
+  · exact ⟨_, rfl⟩
 
 /-- the hash section that accompanies the table is absent, or a well-formed SysV table, or a
     well-formed GNU table (decidable conditions on its bytes, see `SysvWf` / `GnuWf`) -/
@@ -1624,6 +1654,7 @@ inductive HashOk (t : SymTab) : Prop
 theorem hashPhase_total {t : SymTab} {symB strB : Bytes} (h : Wf t symB strB) (hk : HashOk t) (name : Bytes)
     (a : Attrs) : ∃ r1, t.hashPhase name a = .ok r1 := by
   unfold hashPhase
+  simp only [sym_byname_is_sysv, sym_byname_is_gnu, SymTie.gnuLookupT_dispatch]
   cases hk with
   | none e => rw [e]; exact ⟨_, rfl⟩
   | sysv hs hashB e hr hty hw =>
